@@ -20,7 +20,11 @@ import (
 
 // guardsResolved is Guards(b) with materialised short-circuit conditions and
 // negations resolved into atomic guards.
-func guardsResolved(b *ssa.BasicBlock) []Guard {
+func guardsResolved(b *ssa.BasicBlock) []Guard { return resolveGuards(Guards(b)) }
+
+// resolveGuards applies the resolution of guardsResolved to a given list of
+// known branch outcomes / boolean facts.
+func resolveGuards(gs []Guard) []Guard {
 	var out []Guard
 	type key struct {
 		c ssa.Value
@@ -52,10 +56,87 @@ func guardsResolved(b *ssa.BasicBlock) []Guard {
 		seen[k] = true
 		out = append(out, g)
 	}
-	for _, g := range Guards(b) {
+	for _, g := range gs {
 		add(g, 0)
 	}
 	return out
+}
+
+// pendingFlag describes a boolean local of positive polarity ("the action is
+// still to be done") that guards an action inside a loop:
+//
+//	pending := <init>            // before the loop
+//	for ... { if ... pending { action; pending = false } }
+//
+// It is the mirror image of the `done := false ... !done && <init> ... done =
+// true` idiom. For the guard `pending == true` at an iteration the following
+// holds when Shape is true: pending is true there iff the value it had when the
+// loop was entered (one of Inits, evaluated BEFORE the loop) was true and no
+// edge that assigns false was taken so far; every such edge leaves a block
+// dominated by the anchor (the action), so "pending is false" implies "an init
+// value was false, or the action was executed earlier in this call".
+type pendingFlag struct {
+	Shape bool        // only the forms above feed the flag
+	Why   string      // reason when Shape is false
+	Inits []ssa.Value // values the flag can have on entry of the loop (constants included)
+	Clear int         // number of edges assigning false (all after the anchor when Shape)
+}
+
+// analysePendingFlag follows the phi web of flag. anchor is the instruction the
+// flag protects; loop is the loop around it (nil: no loop, every non-constant
+// leaf is an init value).
+func analysePendingFlag(flag *ssa.Phi, anchor ssa.Instruction, loop *Loop) pendingFlag {
+	pf := pendingFlag{Shape: true}
+	fail := func(why string) {
+		if pf.Shape {
+			pf.Shape, pf.Why = false, why
+		}
+	}
+	ab := anchor.Block()
+	seen := map[*ssa.Phi]bool{}
+	var visit func(ph *ssa.Phi, depth int)
+	visit = func(ph *ssa.Phi, depth int) {
+		if seen[ph] {
+			return
+		}
+		if depth > 8 {
+			fail("the flag's data flow is too deep to follow")
+			return
+		}
+		seen[ph] = true
+		for i, e := range ph.Edges {
+			pred := ph.Block().Preds[i]
+			inLoop := loop != nil && loop.Blocks[pred]
+			switch x := e.(type) {
+			case *ssa.Phi:
+				visit(x, depth+1)
+			case *ssa.Const:
+				switch {
+				case IsConstBool(x, false) && inLoop:
+					pf.Clear++
+					if !(ab == pred || ab.Dominates(pred)) {
+						fail("the flag is cleared on a path that has not made the clone")
+					}
+				case inLoop:
+					// re-armed inside the loop: not the once-only idiom
+					fail("the flag is set again inside the loop")
+				default:
+					pf.Inits = append(pf.Inits, x)
+				}
+			default:
+				if inLoop {
+					fail("the flag is recomputed inside the loop")
+				} else {
+					pf.Inits = append(pf.Inits, e)
+				}
+			}
+		}
+	}
+	visit(flag, 0)
+	if len(pf.Inits) == 0 {
+		fail("the flag has no value on entry of the loop")
+	}
+	return pf
 }
 
 // splitBoolPhi: the boolean phi ph is known to have the value want. If exactly
